@@ -121,7 +121,10 @@ def run_case(case, cid):
         if matrix:
             return l if isinstance(l, int) and not isinstance(l, bool) else -7
         return names.get((type(l).__name__, l), "?%r" % (l,))
-    model = classes[case["kind"]](case["terms"])
+    cls_ = classes[case["kind"]]
+    if case["kind"] not in ("dict", "PCBO", "PCSO") and not case["fn"] and cid % 4 == 2:
+        cls_ = type("My" + case["kind"], (cls_,), {})          # a user's subclass: the methods must dispatch as for the class itself
+    model = cls_(case["terms"])
     if case.get("constrained"):
         with warnings.catch_warnings():
             warnings.simplefilter("ignore")
@@ -268,6 +271,21 @@ def run(tier, out, replay=None):
                     prec["raised"] = type(e).__name__ + ": " + str(e)[:80]
                 recs.append(prec)
                 cases.append({"problem": "BILP", "c": cc, "S": S, "b": b})
+            # arguments given by position are forwarded like the same arguments given by keyword
+            prec = {"id": len(recs), "spin": False, "kind": "dict", "fn": "AlternatingSectorsChain.solve_bruteforce", "model": [], "K": [], "den": 1,
+                    "valid_kind": "true", "valid_arg": [], "all": False, "obj": [0], "sols": [[[], [], True]], "raised": "",
+                    "unchanged": True, "second_same": True}
+            try:
+                for args_ in ((5, 2, 0, 1), (6, 3, 1, 2)):
+                    for pbc_ in (True, False):
+                        asc = problems.AlternatingSectorsChain(*args_)
+                        r_pos, r_kw = asc.solve_bruteforce(pbc_), asc.solve_bruteforce(pbc=pbc_)
+                        if isinstance(r_pos, list) or r_pos != r_kw:
+                            prec["raised"] = "PositionalKeywordMismatch: %r vs %r" % (r_pos, r_kw)
+            except Exception as e:      # noqa
+                prec["raised"] = type(e).__name__ + ": " + str(e)[:80]
+            recs.append(prec)
+            cases.append({"problem": "AlternatingSectorsChain"})
         out.add("traces_validated_against_impl", len(recs))
         out.sample(describe(cases[0]))
         rf = os.path.join(wd, "recs.ndjson")
